@@ -33,6 +33,7 @@ import (
 	"os/exec"
 	"path/filepath"
 	"runtime/debug"
+	"strconv"
 	"strings"
 	"syscall"
 	"testing"
@@ -422,57 +423,260 @@ func (s *c19Server) alive() bool {
 	}
 }
 
-// c19StartServer starts the built skylight binary (env VERIF_BIN_SKYLIGHT) on a
-// free loopback port with the given configuration (plain HTTP: no ACME section)
-// and waits until it answers.
-func c19StartServer(c *Config, workdir string) *c19Server {
+// c19Probe names one URL of the generated configuration together with the file
+// it is served from: the launcher writes a fresh random token into that file at
+// every launch and accepts a server only if it serves exactly that token, i.e.
+// if the process answering on the port is THIS skylight instance and not some
+// other program that happened to grab the port.
+type c19Probe struct {
+	Host, Path, File string
+}
+
+// c19Session owns one skylight instance and a keep-alive connection to it. It
+// (re)launches the binary until the instance is proven to be its own, and it
+// re-verifies / restarts on connection-level failures. Failing to obtain a
+// verified instance is an engine error, never a verdict.
+type c19Session struct {
+	cfg      *Config
+	workdir  string
+	probe    c19Probe
+	Srv      *c19Server
+	conn     *c19Conn
+	token    string
+	launches int
+	exchanges int
+}
+
+func c19NewSession(c *Config, workdir string, probe c19Probe) *c19Session {
+	s := &c19Session{cfg: c, workdir: workdir, probe: probe}
+	s.launch()
+	return s
+}
+
+func (s *c19Session) Stop() {
+	if s.conn != nil {
+		s.conn.Close()
+	}
+	s.Srv.Stop()
+}
+
+func (s *c19Session) Addr() string { return s.Srv.Addr }
+
+// fetchToken asks the server on addr for the probe URL on a fresh connection.
+func (s *c19Session) fetchToken(addr string) (ok bool, detail string) {
+	conn, err := net.DialTimeout("tcp", addr, time.Second)
+	if err != nil {
+		return false, "dial: " + err.Error()
+	}
+	cc := &c19Conn{addr: addr, c: conn, br: bufio.NewReader(conn), noRedial: true}
+	defer cc.Close()
+	r := cc.Do([]c19Req{{Host: s.probe.Host, Path: s.probe.Path}})[0]
+	if r.Err != "" {
+		return false, r.Err
+	}
+	if r.Status != 200 || string(r.Body) != s.token {
+		return false, fmt.Sprintf("status %d, body %.60q is not this launch's token", r.Status, r.Body)
+	}
+	return true, ""
+}
+
+// c19PortOwnedBy reports whether the LISTEN socket on the loopback address addr
+// belongs to process pid (via /proc/net/tcp and /proc/<pid>/fd). known is false
+// if that cannot be determined on this system. This identity proof does not go
+// through the HTTP routing of the code under test.
+func c19PortOwnedBy(addr string, pid int) (owned, known bool) {
+	_, portStr, err := net.SplitHostPort(addr)
+	if err != nil {
+		return false, false
+	}
+	port, err := strconv.Atoi(portStr)
+	if err != nil {
+		return false, false
+	}
+	tcp, err := os.ReadFile("/proc/net/tcp")
+	if err != nil {
+		return false, false
+	}
+	want := fmt.Sprintf("0100007F:%04X", port)
+	var inodes []string
+	for _, line := range strings.Split(string(tcp), "\n")[1:] {
+		f := strings.Fields(line)
+		if len(f) >= 10 && f[1] == want && f[3] == "0A" {
+			inodes = append(inodes, f[9])
+		}
+	}
+	fds, err := os.ReadDir(fmt.Sprintf("/proc/%d/fd", pid))
+	if err != nil {
+		return false, false
+	}
+	if len(inodes) == 0 {
+		return false, true // nobody listens (yet)
+	}
+	for _, fd := range fds {
+		l, err := os.Readlink(fmt.Sprintf("/proc/%d/fd/%s", pid, fd.Name()))
+		if err != nil {
+			continue
+		}
+		for _, ino := range inodes {
+			if l == "socket:["+ino+"]" {
+				return len(inodes) == 1, true // exactly one listener, and it is ours
+			}
+		}
+	}
+	return false, true
+}
+
+// verify reports whether srv is alive and is the process serving on its port:
+// preferably by socket ownership, else (or additionally) by the planted token.
+func (s *c19Session) verify(srv *c19Server) (bool, string) {
+	if srv == nil || !srv.alive() {
+		return false, "child is not running"
+	}
+	owned, known := c19PortOwnedBy(srv.Addr, srv.cmd.Process.Pid)
+	if known {
+		if !owned {
+			return false, "the listening socket on " + srv.Addr + " does not (only) belong to the child"
+		}
+		return srv.alive(), "socket owned by child"
+	}
+	ok, detail := s.fetchToken(srv.Addr)
+	return ok && srv.alive(), detail
+}
+
+// identityOK reports whether our child is alive and is the one answering.
+func (s *c19Session) identityOK() bool {
+	ok, _ := s.verify(s.Srv)
+	return ok
+}
+
+// launch (re)starts the built skylight binary (env VERIF_BIN_SKYLIGHT) on a
+// loopback port (plain HTTP: no ACME section) and returns only once the child
+// is alive AND serves this launch's token.
+func (s *c19Session) launch() {
 	bin := os.Getenv("VERIF_BIN_SKYLIGHT")
 	if bin == "" {
-		panic("VERIF_BIN_SKYLIGHT is not set")
+		panic(verifmc.EngineError{Msg: "VERIF_BIN_SKYLIGHT is not set"})
 	}
-	var lastErr error
-	for attempt := 0; attempt < 5; attempt++ {
-		ln, err := net.Listen("tcp", "127.0.0.1:0")
+	if s.conn != nil {
+		s.conn.Close()
+		s.conn = nil
+	}
+	if s.Srv != nil {
+		s.Srv.Stop()
+		s.Srv = nil
+	}
+	var fails []string
+	for attempt := 0; attempt < 12; attempt++ {
+		s.launches++
+		if attempt > 0 {
+			time.Sleep(time.Duration(50*attempt) * time.Millisecond)
+		}
+		var tb [16]byte
+		_, err := rand.Read(tb[:])
 		c19Check(err)
+		s.token = "verif-skylight-instance-" + hex.EncodeToString(tb[:]) + "\n"
+		os.Remove(s.probe.File)
+		c19Write(s.probe.File, []byte(s.token))
+
+		ln, err := net.Listen("tcp", "127.0.0.1:0")
+		if err != nil {
+			fails = append(fails, "listen: "+err.Error())
+			continue
+		}
 		addr := ln.Addr().String()
 		ln.Close()
-		c.Listen = []string{addr}
-		yml, err := yaml.Marshal(c)
+		// Test hook: VERIF_CHAOS_FOREIGN=1 lets a foreign server (answering 404 to
+		// everything) win the race for the port picked on the first two attempts.
+		if verifmc.EnvInt("VERIF_CHAOS_FOREIGN", 0) > 0 && attempt < 2 {
+			if fl, err := net.Listen("tcp", addr); err == nil {
+				go http.Serve(fl, http.NotFoundHandler())
+				defer fl.Close()
+			}
+		}
+		s.cfg.Listen = []string{addr}
+		yml, err := yaml.Marshal(s.cfg)
 		c19Check(err)
-		cfgPath := filepath.Join(workdir, fmt.Sprintf("skylight-%d.yaml", attempt))
+		cfgPath := filepath.Join(s.workdir, fmt.Sprintf("skylight-%d.yaml", s.launches))
 		c19Write(cfgPath, yml)
-		logPath := filepath.Join(workdir, fmt.Sprintf("skylight-%d.log", attempt))
+		logPath := filepath.Join(s.workdir, fmt.Sprintf("skylight-%d.log", s.launches))
 		logf, err := os.Create(logPath)
 		c19Check(err)
 		cmd := exec.Command(bin, "-c", cfgPath)
-		cmd.Dir = workdir
+		cmd.Dir = s.workdir
 		cmd.Stdout = nil
 		cmd.Stderr = logf
 		cmd.Env = append(os.Environ(), "GOMAXPROCS=2")
 		cmd.SysProcAttr = &syscall.SysProcAttr{Pdeathsig: syscall.SIGKILL}
-		c19Check(cmd.Start())
+		err = cmd.Start()
 		logf.Close()
-		s := &c19Server{cmd: cmd, exited: make(chan struct{}), Addr: addr, Log: logPath}
-		go func() { cmd.Wait(); close(s.exited) }()
-		ok := false
-		for start := time.Now(); !ok && s.alive() && time.Since(start) < 20*time.Second; time.Sleep(10 * time.Millisecond) {
-			conn, err := net.DialTimeout("tcp", addr, time.Second)
-			if err != nil {
-				continue
+		if err != nil {
+			fails = append(fails, "start: "+err.Error())
+			continue
+		}
+		srv := &c19Server{cmd: cmd, exited: make(chan struct{}), Addr: addr, Log: logPath}
+		go func() { cmd.Wait(); close(srv.exited) }()
+		verified, last := false, "no answer"
+		for start := time.Now(); srv.alive() && time.Since(start) < 30*time.Second; time.Sleep(10 * time.Millisecond) {
+			ok, detail := s.verify(srv)
+			if ok {
+				verified = true
+				break
 			}
-			cc := &c19Conn{addr: addr, c: conn, br: bufio.NewReader(conn)}
-			rs := cc.Do([]c19Req{{Host: "127.0.0.1", Path: "/metrics"}})
-			cc.Close()
-			ok = rs[0].Status != 0
+			last = detail
 		}
-		if ok {
-			return s
+		if verified {
+			s.Srv = srv
+			s.conn = c19Dial(addr)
+			return
 		}
-		s.Stop()
+		srv.Stop()
 		lg, _ := os.ReadFile(logPath)
-		lastErr = fmt.Errorf("skylight did not come up on %s: %s", addr, lg)
+		if len(lg) > 600 {
+			lg = lg[len(lg)-600:]
+		}
+		fails = append(fails, fmt.Sprintf("%s: %s; child stderr: %s", addr, last, lg))
 	}
-	panic(lastErr)
+	panic(verifmc.EngineError{Msg: "could not obtain a verified skylight instance: " + strings.Join(fails, " | ")})
+}
+
+// Do sends the requests to the verified instance. Answers are returned only if
+// our child was alive after the exchange; connection-level failures make the
+// session re-verify the instance (restarting it if needed) and redo the batch.
+func (s *c19Session) Do(reqs []c19Req) []c19Resp {
+	healthyFailures := 0
+	// Test hook for the recovery path: VERIF_CHAOS_KILL_EVERY=n kills the child
+	// before every n-th exchange.
+	if n := verifmc.EnvInt("VERIF_CHAOS_KILL_EVERY", 0); n > 0 {
+		s.exchanges++
+		if s.exchanges%n == 0 {
+			s.Srv.cmd.Process.Kill()
+			<-s.Srv.exited
+		}
+	}
+	for try := 0; try < 6; try++ {
+		out := s.conn.Do(reqs)
+		bad := !s.Srv.alive()
+		for _, r := range out {
+			if r.Err != "" {
+				bad = true
+			}
+		}
+		if !bad {
+			return out
+		}
+		s.conn.Close()
+		if s.identityOK() {
+			// the instance is fine: a transient connection problem, or a request the
+			// server persistently refuses to answer
+			healthyFailures++
+			if healthyFailures >= 2 {
+				return out
+			}
+			continue
+		}
+		s.launch()
+	}
+	panic(verifmc.EngineError{Msg: "skylight instance keeps failing; last child stderr in " + s.Srv.Log})
 }
 
 // ---------------------------------------------------------------------------
@@ -492,9 +696,10 @@ type c19Resp struct {
 }
 
 type c19Conn struct {
-	addr string
-	c    net.Conn
-	br   *bufio.Reader
+	addr     string
+	c        net.Conn
+	br       *bufio.Reader
+	noRedial bool // a single-shot connection: never reconnect to whoever listens now
 }
 
 func c19Dial(addr string) *c19Conn { return &c19Conn{addr: addr} }
@@ -509,6 +714,9 @@ func (cc *c19Conn) Close() {
 func (cc *c19Conn) ensure() error {
 	if cc.c != nil {
 		return nil
+	}
+	if cc.noRedial {
+		return errors.New("connection lost")
 	}
 	var err error
 	for i := 0; i < 50; i++ {
